@@ -623,7 +623,14 @@ class ExprMixin:
                 parts.append(self.to_term(self.eval(v.value)))
         if all(is_const(p) for p in parts):
             return K("".join(str(p[1]) for p in parts))
-        return ("fstr", tuple(parts))
+        flat = []
+        for q in parts:
+            for r in (q[1] if (isinstance(q, tuple) and q and q[0] == "fstr") else (q,)):
+                if flat and is_const(r) and isinstance(r[1], str) and is_const(flat[-1]) and isinstance(flat[-1][1], str):
+                    flat[-1] = K(flat[-1][1] + r[1])
+                else:
+                    flat.append(r)
+        return ("fstr", tuple(flat))
 
     def e_FormattedValue(self, node):
         return self.to_term(self.eval(node.value))
@@ -737,6 +744,19 @@ class ExprMixin:
                 pass
         if op == "+" and a[0] == "list" and b[0] == "list":
             return ("list", a[1] + b[1])
+        if op == "+":
+            # string concatenation: one spelling with f-strings ('a' + str(x) + 'b' is f"a{x}b")
+            def strish(t):
+                return (is_const(t) and isinstance(t[1], str)) or (isinstance(t, tuple) and t and t[0] == "fstr")
+            if strish(a) or strish(b):
+                parts = []
+                for t in (a, b):
+                    for q in (t[1] if (isinstance(t, tuple) and t and t[0] == "fstr") else (t,)):
+                        if parts and is_const(q) and isinstance(q[1], str) and is_const(parts[-1]) and isinstance(parts[-1][1], str):
+                            parts[-1] = K(parts[-1][1] + q[1])
+                        else:
+                            parts.append(q)
+                return ("fstr", tuple(parts))
         return app(op, a, b)
 
     def e_Compare(self, node):
